@@ -407,6 +407,10 @@ Definition o_delete_first : oracle :=
   {| victim := fun i _ _ => Nat.eqb i 0; svictim := fun i _ => Nat.eqb i 0; fresh := fun _ _ n => n;
      repl := fun _ => []; mrepl := fun _ _ => []; extra := fun _ => []; restatic := fun _ _ b => b |}.
 
+Definition o_delete_second_member : oracle :=
+  {| victim := fun _ j _ => Nat.eqb j 2; svictim := fun _ j => Nat.eqb j 2; fresh := fun _ _ n => n;
+     repl := fun _ => []; mrepl := fun _ _ => []; extra := fun _ => []; restatic := fun _ _ b => b |}.
+
 (* R07  the full property is refuted: a definition named `_` is in the surface and in the preserve set
    and is deleted by rules that take no preserve argument (F07-3, documented `_` convention) *)
 Theorem safe_mode_underscore_refuted :
@@ -418,6 +422,20 @@ Proof.
   - cbn. auto.
   - cbn. auto.
   - vm_compute. intros [H | []]. discriminate H.
+Qed.
+
+(* R07.5 (hunt C07-0, repaired): the pinned delete_unreachable_code took no preserve set -- a member of a
+   top-level class that is in the safe preserve set was unguarded *)
+Theorem unreachable_pinned_unguarded :
+  exists m c f, In (c, f) (member_surface m) /\ In f (safe_preserve [] m) /\
+                g_unreachable_pinned (safe_preserve [] m) (SMVar c false f) = false /\
+                ~ In (c, f) (member_surface (apply_rule g_unreachable_pinned (safe_preserve [] m) o_delete_second_member m)).
+Proof.
+  exists [Class "A" false [MOther; MAssign [TName "y"]]], "A", "y". split; [| split; [| split]].
+  - cbn. auto.
+  - cbn. auto.
+  - vm_compute. reflexivity.
+  - vm_compute. intros [].
 Qed.
 
 (* ---------------------------------------------------------------------------------------------- *)
